@@ -279,11 +279,51 @@ func waitUntil(deadline time.Duration, cond func() bool) bool {
 	}
 }
 
-// timed runs one Upload call and returns its duration (monotonic clock)
-func timed(f func()) time.Duration {
-	t0 := time.Now()
+// burst calls up() for jobs[lo:hi] in a separate goroutine and watches it: if the calls have not all returned after
+// [limit], the age of the call in progress is taken as its latency (it is blocked) and the run goes on without it.
+type bursting struct {
+	mu       sync.Mutex
+	maxLat   time.Duration
+	curStart time.Time
+	inCall   bool
+}
+
+func (b *bursting) call(f func()) {
+	b.mu.Lock()
+	b.curStart, b.inCall = time.Now(), true
+	b.mu.Unlock()
 	f()
-	return time.Since(t0)
+	b.mu.Lock()
+	if dt := time.Since(b.curStart); dt > b.maxLat {
+		b.maxLat = dt
+	}
+	b.inCall = false
+	b.mu.Unlock()
+}
+
+// run executes f (a sequence of b.call) under the watchdog; false = some call is still blocked after limit
+func (b *bursting) run(limit time.Duration, f func()) bool {
+	done := make(chan struct{})
+	go func() { f(); close(done) }()
+	select {
+	case <-done:
+		return true
+	case <-time.After(limit):
+		b.mu.Lock()
+		if b.inCall {
+			if dt := time.Since(b.curStart); dt > b.maxLat {
+				b.maxLat = dt
+			}
+		}
+		b.mu.Unlock()
+		return false
+	}
+}
+
+func (b *bursting) max() time.Duration {
+	b.mu.Lock()
+	defer b.mu.Unlock()
+	return b.maxLat
 }
 
 func optBytes(s *string) string {
@@ -334,29 +374,29 @@ func runRemote(in Input, jobs []*jobDesc) (res lib.Result) {
 		return lib.Result{Crash: "remote.New: " + err.Error()}
 	}
 
-	var maxLat time.Duration
-	up := func(d *jobDesc) {
-		if dt := timed(func() { rem.Upload(d.job) }); dt > maxLat {
-			maxLat = dt
-		}
-	}
+	bu := &bursting{}
+	up := func(d *jobDesc) { bu.call(func() { rem.Upload(d.job) }) }
 	hold := 0
 	if in.Paced {
 		hold = in.Threads
 		if hold > len(jobs) {
 			hold = len(jobs)
 		}
-		for i := 0; i < hold; i++ {
-			up(jobs[i])
-		}
+		bu.run(3*time.Second, func() {
+			for i := 0; i < hold; i++ {
+				up(jobs[i])
+			}
+		})
 		// every one of the first [hold] jobs is now hanging inside the server, one per worker
 		if !waitUntil(5*time.Second, func() bool { return atomic.LoadInt64(&srv.inflight) >= int64(hold) }) {
 			return lib.Result{Crash: fmt.Sprintf("paced run: only %d of %d requests arrived within 5 s", atomic.LoadInt64(&srv.inflight), hold)}
 		}
 	}
-	for i := hold; i < len(jobs); i++ {
-		up(jobs[i])
-	}
+	blocked := !bu.run(3*time.Second, func() {
+		for i := hold; i < len(jobs); i++ {
+			up(jobs[i])
+		}
+	})
 	release()
 
 	attempts := func() int64 {
@@ -388,13 +428,15 @@ func runRemote(in Input, jobs []*jobDesc) (res lib.Result) {
 	srv.mu.Unlock()
 	bad := atomic.LoadInt64(&srv.bad)
 
-	rem.Stop()
-	for i := 0; i < in.AfterStop; i++ {
-		d := jobs[i%len(jobs)]
-		if dt := timed(func() { rem.Upload(d.job) }); dt > maxLat {
-			maxLat = dt
-		}
+	if !blocked {
+		rem.Stop()
+		bu.run(3*time.Second, func() {
+			for i := 0; i < in.AfterStop; i++ {
+				up(jobs[i%len(jobs)])
+			}
+		})
 	}
+	maxLat := bu.max()
 
 	delivered := map[string]int{}
 	reqTerms := make([]string, len(reqs))
@@ -454,12 +496,8 @@ func runDirect(in Input, jobs []*jobDesc) (res lib.Result) {
 	d := direct.New(st)
 	d.Start()
 
-	var maxLat time.Duration
-	up := func(j *jobDesc) {
-		if dt := timed(func() { d.Upload(j.job) }); dt > maxLat {
-			maxLat = dt
-		}
-	}
+	bu := &bursting{}
+	up := func(j *jobDesc) { bu.call(func() { d.Upload(j.job) }) }
 	hold := 0
 	gateOpen := false
 	openGate := func() {
@@ -471,16 +509,18 @@ func runDirect(in Input, jobs []*jobDesc) (res lib.Result) {
 	defer openGate()
 	if in.Paced && len(jobs) > 0 {
 		hold = 1
-		up(jobs[0])
+		bu.run(3*time.Second, func() { up(jobs[0]) })
 		select {
 		case <-entered:
 		case <-time.After(5 * time.Second):
 			return lib.Result{Crash: "paced direct run: the worker did not reach storage.Put within 5 s"}
 		}
 	}
-	for i := hold; i < len(jobs); i++ {
-		up(jobs[i])
-	}
+	blocked := !bu.run(3*time.Second, func() {
+		for i := hold; i < len(jobs); i++ {
+			up(jobs[i])
+		}
+	})
 	openGate()
 
 	count := func() (map[string]int, int64) {
@@ -509,13 +549,15 @@ func runDirect(in Input, jobs []*jobDesc) (res lib.Result) {
 	delivered, _ = count()
 	full, errs, panics := atomic.LoadInt64(&lrec.full)-full0, atomic.LoadInt64(&lrec.errs)-errs0, atomic.LoadInt64(&lrec.panics)-panics0
 
-	d.Stop()
-	for i := 0; i < in.AfterStop; i++ {
-		j := jobs[i%len(jobs)]
-		if dt := timed(func() { d.Upload(j.job) }); dt > maxLat {
-			maxLat = dt
-		}
+	if !blocked {
+		d.Stop()
+		bu.run(3*time.Second, func() {
+			for i := 0; i < in.AfterStop; i++ {
+				up(jobs[i%len(jobs)])
+			}
+		})
 	}
+	maxLat := bu.max()
 	return finish(in, jobs, hold, maxLat, nil, delivered, 0, full, errs, panics, drained)
 }
 
